@@ -1,0 +1,20 @@
+//go:build verif
+// +build verif
+
+package masswallet
+
+// Accessor used by the verification harness (/verif, property C17). Add-only; compiled only
+// with the build tag "verif".
+
+import (
+	"github.com/massnetorg/mass-core/massutil"
+	"massnet.org/mass-wallet/masswallet/txmgr"
+)
+
+// VerifSpendableCoins calls getUtxosExcludeBindingAndStaking unchanged (read lock taken like
+// the transaction-building callers do): the coins transaction building may select from.
+func (w *WalletManager) VerifSpendableCoins(addrs []string, want massutil.Amount) ([]*txmgr.Credit, bool, error) {
+	w.mu.RLock()
+	defer w.mu.RUnlock()
+	return w.getUtxosExcludeBindingAndStaking(addrs, want)
+}
